@@ -60,10 +60,12 @@ def flagsets():
             yield {"include_unchanged": iu, "want_unversioned": wu}
 
 
-def run_changes(inter, kw):
+def run_changes(inter, kw, err=None, who=None):
     try:
         return sorted((c._as_tuple() for c in inter.iter_changes(**kw)), key=repr), None
     except Exception as e:  # noqa: compared between the implementations
+        if err is not None:
+            err[who] = str(e)[:200]
         return None, "%s:%s" % (type(e).__name__, ts.innermost_repo_frame(e))
 
 
@@ -129,13 +131,15 @@ def check_pair_bzr(acc, setting, source, target, s, t, label, maxk, expect_cls):
     for fl in filters(cand, maxk):
         for flags in flagsets():
             kw = dict(flags, specific_files=fl, require_versioned=False)
-            a, ea = run_changes(opt, kw)
-            b, eb = run_changes(gen, kw)
+            err = {}
+            a, ea = run_changes(opt, kw, err, "optimised")
+            b, eb = run_changes(gen, kw, err, "generic")
             acc.n += 1
             desc = dict(label, filter=fl, flags=flags)
             if ea or eb:
                 if ea != eb:
-                    tp.viol(acc, "%s:exception-differs" % setting, dict(desc, optimised=ea, generic=eb))
+                    tp.viol(acc, "%s:exception-differs:optimised=%s:generic=%s" % (setting, ea, eb),
+                            dict(desc, optimised=ea, generic=eb, error=err.get("optimised") or err.get("generic")))
                 else:
                     tp.viol(acc, "%s:both-raise:%s" % (setting, ea), desc)
                 continue
